@@ -269,6 +269,27 @@ func main() {
 					}
 				}
 			}
+			if yieldDirs[d] || coopDirs[d] || (*doFS && d == "storage/fsstore") {
+				// context.AfterFunc starts a goroutine the scheduler does not own: the simulator runs
+				// the callback itself (zzsimhook.AfterFunc), at a yield point of its choosing
+				if ctxN := importName(f, "context", "context"); ctxN != "" && ctxN != "_" {
+					n0 := len(edits)
+					ast.Inspect(f, func(n ast.Node) bool {
+						se, ok := n.(*ast.SelectorExpr)
+						if !ok {
+							return true
+						}
+						id, ok := se.X.(*ast.Ident)
+						if ok && id.Obj == nil && id.Name == ctxN && se.Sel.Name == "AfterFunc" {
+							edits = append(edits, edit{off(id.Pos()), len(id.Name), "zzsimhook"})
+						}
+						return true
+					})
+					if len(edits) > n0 {
+						edits = append(edits, edit{len(src), 0, "\nvar _ " + ctxN + ".Context\n"})
+					}
+				}
+			}
 			if yieldDirs[d] {
 				pkg := f.Name.Name
 				for _, decl := range f.Decls {
